@@ -61,7 +61,7 @@ def tasks(tier):
     return ['refresh', 'bin', 'walk', 'copy', 'apply', 'canary',
             'dep:C05:reorder', 'dep:C06:align', 'dep:C01:sortkeys',
             'dep:C01:update', 'dep:C01:cellkey', 'dep:C01:pidspace',
-            'dep:C01:pidslices', 'lemma']
+            'dep:C01:pidslices', 'lemma', 'native']
 
 
 def carr(name, length=None, elem='int'):
@@ -112,6 +112,8 @@ def run_task(task, ctx):
             'repr_step', 'lists_content', 'lists_nodup', 'repr_build',
             'linked_list_represents_cells'],
             'lemma.push_front_lists_hold_exactly_the_binned_particles')
+    if task == 'native':
+        return task_native(ctx)
     repo = Repo()
     if task == 'refresh':
         return task_refresh(ctx, repo)
@@ -230,6 +232,44 @@ def replay_native(need_build):
         except Exception as e:
             return dict(reproduced=False, note=str(e)[-300:])
     return rp
+
+
+def task_native(ctx):
+    """BOUNDED stand-in, never counted as proved: every class that implements
+    get_spatially_ordered_indices, re-ordered repeatedly on the extensions
+    built from the working tree (contracts/c17_native_walk.py).  The
+    contracts above cover the linked-list walk, the copies of the other
+    classes and the application of the permutation; that the sorted-key and
+    tree classes hand out a permutation at all is only covered here."""
+    import os
+    if os.environ.get('PYVC_NO_BUILD_REPLAY'):
+        ctx.note('native walk skipped: PYVC_NO_BUILD_REPLAY set '
+                 '(development)')
+        return
+    thorough = ctx.tier == 'thorough'
+    seeds = list(range(150 if thorough else 12))
+    dst, msg = native.shared_build()
+    if dst is None:
+        raise RuntimeError('extensions could not be built: %s' % msg)
+    src = open(os.path.join(os.path.dirname(os.path.abspath(__file__)),
+                            'c17_native_walk.py')).read()
+    r = native.run_venv(src, dict(built=dst, seeds=seeds, rounds=3),
+                        timeout=3000, cwd='/tmp')
+    bound = ('%d random single arrays per class (%s): dims 1-3, 1..69 '
+             'particles, uniform h, long/int/float/unsigned and stride-3 '
+             'properties, Remote/Ghost-tagged particles behind the real '
+             'ones, 3 rounds of re-order + update + move each; permutation, '
+             'multiset of whole records, real-first order and exact '
+             'neighbour lists after the following update' % (
+                 len(seeds), ', '.join(r.get('algorithms', []))))
+    if r['bad']:
+        b = r['bad']
+        ctx.bounded_check('native.%s.%s' % (b.get('algorithm'),
+                                            str(b.get('problem'))[:50]),
+                          bound, 1, False, b)
+    else:
+        ctx.bounded_check('native.reorder_rounds', bound, r['cases'], True,
+                          're-ordering rounds that agree with the property')
 
 
 def ll_self(m, **attrs):
